@@ -475,6 +475,43 @@ pub fn de_reader(ty: &str, xml: &[u8], cuts: &[usize]) -> Result<Value, String> 
     })
 }
 
+/// An entity resolver that records what `capture` is given (the deserializer's DOCTYPE path) and resolves like the default one
+pub struct RecResolver(pub std::rc::Rc<std::cell::RefCell<Vec<Vec<u8>>>>);
+impl quick_xml::de::EntityResolver for RecResolver {
+    type Error = std::convert::Infallible;
+    fn capture(&mut self, d: quick_xml::events::BytesText) -> Result<(), Self::Error> {
+        self.0.borrow_mut().push(d.to_vec());
+        Ok(())
+    }
+    fn resolve(&self, e: &str) -> Option<&str> {
+        quick_xml::escape::resolve_predefined_entity(e)
+    }
+}
+
+/// Deserialize through the resolver entry points (`from_str_with_resolver`, or `with_resolver` over a chunked reader);
+/// returns the result and what the resolver was asked to capture
+pub fn de_resolver(ty: &str, xml: &str, cuts: Option<&[usize]>) -> (Result<Value, String>, Vec<Vec<u8>>) {
+    let cap = std::rc::Rc::new(std::cell::RefCell::new(Vec::new()));
+    let r: Result<Value, String> = (|| {
+        with_type!(ty, T, {
+            let val: T = match cuts {
+                None => {
+                    let mut de = quick_xml::de::Deserializer::from_str_with_resolver(xml, RecResolver(cap.clone()));
+                    T::deserialize(&mut de).map_err(|e| format!("{e:?}"))?
+                }
+                Some(c) => {
+                    let src = crate::env::Chunked::new(xml.as_bytes(), crate::env::Plan { cuts: c.to_vec(), ..Default::default() });
+                    let mut de = quick_xml::de::Deserializer::with_resolver(src, RecResolver(cap.clone()));
+                    T::deserialize(&mut de).map_err(|e| format!("{e:?}"))?
+                }
+            };
+            Ok(serde_json::to_value(&val).unwrap())
+        })
+    })();
+    let got = cap.borrow().clone();
+    (r, got)
+}
+
 /// Deserialize with an event buffer limit (overlapped lists)
 pub fn de_limit(ty: &str, xml: &str, limit: Option<usize>) -> Result<Value, String> {
     with_type!(ty, T, {
